@@ -55,7 +55,9 @@ Case(pre, c, post) ==
      images |-> [i \in DOMAIN Probes |-> <<Probes[i], Apply(post, Probes[i])>>],
      det |-> Det(post), inverse |-> InverseN(post), elem |-> Elem(c),
      \* compose_many(self, [e, e]) = self then e then e
-     twice |-> Compose(Compose(pre, Elem(c)), Elem(c))]
+     twice |-> Compose(Compose(pre, Elem(c)), Elem(c)),
+     \* compose_many(self, [e, K]) with a fixed K that does not commute with most e
+     then_k |-> Compose(Compose(pre, Elem(c)), <<0, -1, 2, 1, 0, -1>>)]
 Next == /\ depth < Depth /\ depth' = depth + 1
         /\ \E c \in Calls : /\ m' = Compose(m, Elem(c))
                             /\ PrintT(<<"CASE", ToJson(Case(m, c, m'))>>)
